@@ -304,6 +304,57 @@ Definition pad_hi (a b w : Q) : Q := pad_lo a b w + w * inject_Z (Z.of_nat (pad_
 Definition dec_lo (a b w : Q) : Q := if Qlt_bool (pad_lo a b w) (-(90) + 3 * w) then -(90) else pad_lo a b w.
 Definition dec_hi (a b w : Q) : Q := if Qlt_bool (90 - 3 * w) (pad_hi a b w) then 90 else pad_hi a b w.
 
+(* chunks.getbounds (repaired version: RA test against raMargin) on exact rationals, bounds as data;
+   None = it raised.  mg = raMargin (computed by the caller from sin/cos/arcsin) *)
+Fixpoint gb_rows (raB : list (list Q)) (ra mg : Q) (i : nat) (k : nat) : option (list (Z * Z)) :=
+  match k with
+  | O => Some []
+  | S k' =>
+      let B := nth i raB [] in
+      let n := (length B - 1)%nat in
+      let r0 := cell_index ra (qbnd B 0) (qbnd B n) n in
+      if (r0 <? 0)%Z || (Z.of_nat n - 1 <? r0)%Z then None
+      else match gb_rows raB ra mg (S i) k' with
+           | None => None
+           | Some rest => Some ((ra_down B ra mg (Z.to_nat r0), ra_up B ra mg n n (Z.to_nat r0)) :: rest)
+           end
+  end.
+
+Definition getbounds_model (decB : list Q) (raB : list (list Q)) (ra dec m mg : Q) : option bnd :=
+  let nDec := (length decB - 1)%nat in
+  let c0 := cell_index dec (qbnd decB 0) (qbnd decB nDec) nDec in
+  if (c0 <? 0)%Z || (Z.of_nat nDec - 1 <? c0)%Z then None
+  else
+    let dmin := dec_down decB dec m (Z.to_nat c0) in
+    let dmax := dec_up decB dec m nDec nDec (Z.to_nat c0) in
+    match gb_rows raB ra mg dmin (S dmax - dmin) with
+    | None => None
+    | Some rows => Some (Z.of_nat dmin, rows)
+    end.
+
+Definition bnd_eqb (a b : option bnd) : bool :=
+  match a, b with
+  | None, None => true
+  | Some (d1, r1), Some (d2, r2) =>
+      (d1 =? d2)%Z && list_eqb (fun x y => (fst x =? fst y)%Z && (snd x =? snd y)%Z) r1 r2
+  | _, _ => false
+  end.
+
+(* recorded geometry of one run: decBounds, raBounds, marginSize and per list-2 point (currRa, dec, raMargin) *)
+Record geom := { g_decB : list Q; g_raB : list (list Q); g_m : Q; g_pts : list (Q * Q * Q) }.
+
+(* number of list-2 points whose recorded getbounds result differs from the exact-rational walk model *)
+Definition getbounds_disagreements (g : geom) (recorded : list (option bnd)) : Z :=
+  Z.of_nat (length (filter (fun pr => negb (bnd_eqb (getbounds_model (g_decB g) (g_raB g) (fst (fst (fst pr))) (snd (fst (fst pr)))
+                                                                     (g_m g) (snd (fst pr)))
+                                                     (snd pr)))
+                           (combine (g_pts g) recorded))).
+
+Definition run_geom (x : geom * list (option bnd)) : Z := getbounds_disagreements (fst x) (snd x).
+Definition run_geoms (xs : list (geom * list (option bnd))) : list Z := map run_geom xs.
+Definition mkgeom (decB : list Q) (raB : list (list Q)) (m : Q) (pts : list (Q * Q * Q)) : geom :=
+  {| g_decB := decB; g_raB := raB; g_m := m; g_pts := pts |}.
+
 (* constructors used by the harness (all numerals are written as Z / positive literals) *)
 (* m * 2^e: a double, written with short literals (big decimal literals are slow to parse) *)
 Definition q (m e : Z) : Q :=
